@@ -1,4 +1,5 @@
 import CalmVerif.Props.C03
+import CalmVerif.Props.C03tok
 open CalmVerif.Props.C03
 #print axioms tables_valid
 #print axioms lr_sound
@@ -20,3 +21,9 @@ open CalmVerif.Props.C03
 #check @exprstmt_never_starts_with_brace
 #print axioms exprstmt_can_start_with_function_KF03a
 #check @exprstmt_can_start_with_function_KF03a
+#print axioms CalmVerif.Props.C03tok.lexer_token_types_are_grammar_terminals
+#check @CalmVerif.Props.C03tok.lexer_token_types_are_grammar_terminals
+#print axioms CalmVerif.Props.C03tok.keywords_and_punctuators_are_terminals
+#check @CalmVerif.Props.C03tok.keywords_and_punctuators_are_terminals
+#print axioms CalmVerif.Props.C03tok.every_terminal_is_used
+#check @CalmVerif.Props.C03tok.every_terminal_is_used
